@@ -93,6 +93,21 @@ def is_union(v: dict) -> bool:
     return v.get("ty") == "union"
 
 
+# ---- inherited members (c05_inherit.py, Model/FieldInherit.lean): a vector with a key "relist" is a
+# member of a BASE schema seen from a subclass schema that lists it again in a `required` list of its
+# own — "no" / "owner" (the schema owning the allOf) / "sibling" (an allOf item carrying only
+# `required`) / "item" (the `required` list of an allOf item with properties)
+def relist_of(v: dict) -> str | None:
+    return v.get("relist")
+
+
+# ---- `$ref`-typed members: a reference to an object definition that may admit null itself
+# (`type: ["object", "null"]`, or the OpenAPI keyword `nullable: true` next to `type: object`); the
+# definition stands before / after the referring schema, in another file, … (c05_refs.py, Model/FieldRef.lean)
+def is_ref(v: dict) -> bool:
+    return v.get("ty") == "ref"
+
+
 def alt_schema(alt: str) -> dict:
     if alt == "z":
         return {"type": "null"}
@@ -126,6 +141,10 @@ def valid(v: dict) -> bool:
         if v["opts"]["an"] and not v["opts"]["fc"]:
             return False
         return v["via"] == "own" or v["inreq"]
+    if is_ref(v):
+        from . import c05_refs
+
+        return c05_refs.valid(v)
     if v["ty"] not in ty_of(v["dflt"]):
         return False
     if v["constr"] and v["ty"] == "object":
@@ -150,6 +169,10 @@ def realise(v: dict) -> dict:
         typed = [a for a in alts if a != "z"]
         jt = ATOM_JT[typed[0][1]] if typed else "null"
         return {"member": member, "jtype": jt, "default": dv, "present": PRESENT.get(jt)}
+    if is_ref(v):
+        from . import c05_refs
+
+        return c05_refs.realise(v)
     if d in ("none", "null"):
         jt, extra = BASE[v["ty"]][var % len(BASE[v["ty"]])]
         dv = None
@@ -211,10 +234,12 @@ def opts_of(v: dict) -> dict:
 def vec_key(v: dict) -> str:
     bits = "".join("1" if v["opts"][t] else "0" for t in OPT_TAG)
     ty = v["ty"] if not is_union(v) else f"{v.get('comb', 'anyOf')}[{'.'.join(v['alts'])}]"
+    if is_ref(v):
+        ty = f"ref[{v['target']}@{v['place']}]"
     return (
         f"{KIND_TAG[v['kind']]} {v['nullsrc']} {'req' if v['inreq'] else 'opt'} {v['dflt']} {ty} "
         f"{'con' if v['constr'] else 'nocon'} {bits} {v['via']} {v['name']}"
-    )
+    ) + (f" inherited:relisted-{v['relist']}" if relist_of(v) else "")
 
 
 # ---------------------------------------------------------------- observation of the rendered member
@@ -419,11 +444,12 @@ def _omitted_class(val, real: dict, has_default: bool) -> str:
 
 
 def semantics(code: str, v: dict, real: dict, sh: dict | None, cls: str = "M", names: tuple[str, str] | None = None,
-              others: list[tuple[str, str, object]] | None = None) -> dict:
+              others: list[tuple[str, str, object]] | None = None, loader=None) -> dict:
     """What the emitted member means at run time: loads, must(supply), null(accepted),
     omitted ∈ rejected|none|absent|dflt|other, shared (mutable default shared between instances).
     `names` = (JSON name, Python name) of the member; `others` = (JSON name, Python name, a valid
-    value) of the other members of the same class, which are always supplied."""
+    value) of the other members of the same class, which are always supplied. `loader` (for output
+    that is a package): returns (the imported module holding the class, a function that unloads it)."""
     kind = v["kind"]
     has_default = v["dflt"] != "none"
     jn, pn = names or (JSON_NAME[v["name"]], py_name(v))
@@ -447,8 +473,12 @@ def semantics(code: str, v: dict, real: dict, sh: dict | None, cls: str = "M", n
             if asg.startswith(("lit:", "field:kw")) and c == "dflt" and isinstance(real["default"], (list, dict)) and real["default"]:
                 out["loads"] = "error:msgspec-nonempty-mutable-default"
         return out
+    unload = e2e.unload
     try:
-        mod = e2e.load_module(code, kind)
+        if loader is not None:
+            mod, unload = loader()
+        else:
+            mod = e2e.load_module(code, kind)
     except BaseException as e:  # noqa: BLE001
         return {**out, "loads": f"error:{type(e).__name__}"}
     try:
@@ -508,7 +538,7 @@ def semantics(code: str, v: dict, real: dict, sh: dict | None, cls: str = "M", n
     except BaseException as e:  # noqa: BLE001
         out["loads"] = f"error:introspection:{type(e).__name__}:{str(e)[:80]}"
     finally:
-        e2e.unload(mod)
+        unload(mod)
     return out
 
 
@@ -523,16 +553,31 @@ def member_line(code: str, pyname: str = "n", jsonname: str = "n", cls: str | No
 
 
 _captured: dict = {}
+_capture_error: list[str] = []  # why the parser cannot be observed (the internals the harness reaches into changed shape)
 
 
 def _install_capture() -> None:
     """Observe the parser's field record from outside (DESIGN §2.2): remember the Parser instance
-    that `generate()` creates; `parser.results` holds the models as they are when rendered."""
-    import datamodel_code_generator.parser.base as pb
+    that `generate()` creates; `parser.results` holds the models as they are when rendered.
+    This reaches into internals (`parser.base.Parser.parse`): when they are gone or renamed the record
+    becomes `error:capture-unavailable:…`, which the stage-1 campaign reports as a broken correspondence
+    (vlib/realcall.py: a changed shape of a real callee is never a crash of the check)."""
+    from .. import realcall
 
-    if getattr(pb.Parser.parse, "_c05_wrapped", False):
+    _capture_error.clear()
+    try:
+        import datamodel_code_generator.parser.base as pb
+
+        orig = pb.Parser.parse
+    except (ImportError, AttributeError) as e:
+        _capture_error.append(f"{type(e).__name__}: {e}")
         return
-    orig = pb.Parser.parse
+    if getattr(orig, "_c05_wrapped", False):
+        return
+    why = realcall.signature_accepts(orig, object())
+    if why is not None:
+        _capture_error.append(why)
+        return
 
     def parse(self, *a, **k):
         _captured["parser"] = self
@@ -548,6 +593,8 @@ CONSTRAINT_ATTRS = ("max_length", "le", "max_items", "maxLength", "maximum", "ma
 def ir_of_captured(cls: str = "M", pyname: str | None = None) -> str | None:
     """the parser's field record for a member of model `cls` (the first one, or the one named
     `pyname`), in the driver's `irStr` form"""
+    if _capture_error:
+        return "error:capture-unavailable:" + _capture_error[0][:160]
     p = _captured.get("parser")
     if p is None:
         return None
@@ -570,7 +617,17 @@ def ir_of_captured(cls: str = "M", pyname: str | None = None) -> str | None:
             if modname.endswith((".dataclass", ".msgspec")):
                 import importlib
 
-                key = b(importlib.import_module(modname)._has_field_assignment(f))
+                from .. import realcall
+
+                # a private helper of model/dataclass.py and model/msgspec.py: gone / another signature =
+                # a field record that differs from the model's (broken correspondence), not a crash
+                fn = getattr(importlib.import_module(modname), "_has_field_assignment", None)
+                if fn is None:
+                    key = "gone:_has_field_assignment"
+                elif realcall.signature_accepts(fn, f) is not None:
+                    key = "signature:" + str(realcall.signature_accepts(fn, f))[:120].replace(" ", "_")
+                else:
+                    key = b(fn(f))
             return (
                 f"req={b(f.required)} nullable={n} hd={b(f.has_default)} thn={b(f.type_has_null)} "
                 f"sdn={b(f.strip_default_none)} dio={b(f.data_type.is_optional)} cons={cons} alias={b(f.alias is not None)} key={key}"
@@ -580,6 +637,10 @@ def ir_of_captured(cls: str = "M", pyname: str | None = None) -> str | None:
 
 def run_vector(v: dict) -> dict:
     """One abstract vector through the real generator (runs in a worker process)."""
+    if is_ref(v):
+        from . import c05_refs
+
+        return c05_refs.run_refvec(v)
     _install_capture()
     _captured.clear()
     v = norm_vec(v)
@@ -677,6 +738,18 @@ MODEL_OPTS = ["sn", "ud", "fo", "sd", "an", "fc"]  # use_default_kwarg is spelli
 
 def driver_request(v: dict) -> str:
     bits = "".join("1" if v["opts"][t] else "0" for t in MODEL_OPTS)
+    if is_ref(v):
+        from . import c05_refs
+
+        return (
+            f"field.renderr {KIND_TAG[v['kind']]} {int(v['inreq'])} {v['dflt']} {bits} {v['via']} {v['name']} "
+            f"{int(v['opts']['sc'])} {v['target']} {int(c05_refs.is_forward(v))}"
+        )
+    if relist_of(v):
+        return (
+            f"field.renderi {KIND_TAG[v['kind']]} {NULLMODE[v['nullsrc']]} {int(v['inreq'])} {v['dflt']} {v['ty']} "
+            f"{int(v['constr'])} {bits} {v['name']} {int(v['opts']['sc'])} {v['relist']}"
+        )
     if is_union(v):
         return (
             f"field.renderu {KIND_TAG[v['kind']]} {int(v['inreq'])} {v['dflt']} {bits} {v['via']} {v['name']} "
@@ -730,6 +803,8 @@ def clause_N(v: dict) -> bool:
     """the member's schema admits null (through its type list, the OpenAPI keyword, or an alternative)"""
     if is_union(v):
         return any(alt_admits_null(a) for a in v["alts"])
+    if is_ref(v):
+        return v["target"] != "no"  # the referenced definition admits null
     return NULLMODE[v["nullsrc"]] != "no"
 
 
@@ -738,7 +813,8 @@ def clause_failures(v: dict, sem: dict, shape: str, ir_required: bool | None) ->
     Returns classification dicts {clause, mechanism}; the mechanism is read off the vector, the
     rendered shape and the parser's `required`, never off the Lean model."""
     o = v["opts"]
-    R, D = v["inreq"], v["dflt"] != "none"
+    rel = relist_of(v)
+    R, D = v["inreq"] or (rel is not None and rel != "no"), v["dflt"] != "none"
     N = clause_N(v)
     omittable = (not R) or o["fo"] or (o["ud"] and D)
     none_default = v["dflt"] in ("none", "null")
@@ -755,30 +831,44 @@ def clause_failures(v: dict, sem: dict, shape: str, ir_required: bool | None) ->
     if not omittable:
         if not sem["must"] and (N or not D):
             clause = "required_nullable_stays_required" if N else "required_nodefault_must_supply"
-            if ir_required is False:
+            if rel in ("sibling", "item") and not v["inreq"] and ir_required is False:
+                mech = "relisted_in_allof_item_dropped"  # the entry stands in an allOf item: never applied to an inherited member
+            elif ir_required is False:
                 mech = "parser_dropped_required"
             elif has_rendered_default:
                 mech = "default_appended_to_required"
             elif v["kind"] == "pydantic.BaseModel" and "opt=1" in shape and asg == "none":
                 mech = "v1_bare_optional"
+            elif v["kind"] == "dataclasses.dataclass" and rel == "owner" and asg == "none":
+                mech = "dataclass_override_keeps_inherited_default"  # the re-annotation finds the base's class attribute
             else:
                 mech = "other"
             out.append({"clause": clause, "mechanism": mech})
     else:
+        # the copy made for a required-only override of an inherited member is required whatever
+        # --force-optional / --use-default say (and its default is not written)
+        relaxed_override = None
+        if rel == "owner" and ir_required and (o["fo"] or (o["ud"] and D)):
+            relaxed_override = "override_ignores_force_optional" if o["fo"] else "override_ignores_use_default"
         if sem["must"]:
             mech = "strip_default_none" if (o["sd"] and none_default and asg == "none" and "nr=0" in shape) else "other"
+            if relaxed_override:
+                mech = relaxed_override
             out.append({"clause": "optional_omittable", "mechanism": mech})
         elif sem["loads"]:
             if none_default:
                 if sem["omitted"] not in ("none", "absent"):
-                    out.append({"clause": "optional_reads_none", "mechanism": "other"})
+                    out.append({"clause": "optional_reads_none", "mechanism": relaxed_override or "other"})
             elif sem["omitted"] != "dflt":
-                mech = "typeddict_has_no_defaults" if v["kind"] == "typing.TypedDict" and sem["omitted"] == "absent" else "other"
+                mech = "typeddict_has_no_defaults" if v["kind"] == "typing.TypedDict" and sem["omitted"] == "absent" else (relaxed_override or "other")
                 out.append({"clause": "default_value", "mechanism": mech})
             if sem["shared"]:
                 out.append({"clause": "mutable_default_not_shared", "mechanism": "shared_object"})
     if N and not sem["null"]:
-        if is_union(v):
+        if is_ref(v):
+            # null is admitted by the DEFINITION the member refers to
+            mech = "definition_nullable_keyword_not_read" if v["target"] == "flag" else "reference_to_nullable_definition_lost"
+        elif is_union(v):
             # null is admitted through an alternative of the anyOf / oneOf
             only_flag = all(a[0] == "f" for a in v["alts"] if alt_admits_null(a))
             mech = "openapi_nullable_without_strict" if only_flag and not o["sn"] else "union_alternative_null_lost"
@@ -788,7 +878,9 @@ def clause_failures(v: dict, sem: dict, shape: str, ir_required: bool | None) ->
             mech = "strict_nullable_overrides_type_list"
         elif v["kind"] == "typing.TypedDict" and "nr=1" in shape:
             mech = "typeddict_notrequired_no_fallback"
-        elif v["nullsrc"] == "oa-flag" and o["sn"] and v["via"] != "own" and not D and v["ty"] != "scalar":
+        elif v["nullsrc"] == "oa-flag" and o["sn"] and (v["via"] != "own" or (rel == "owner" and (not v["inreq"] or o["fo"]))) and not D and v["ty"] != "scalar":
+            # `nullable` was computed while the field was not (yet) required: allOf forms, and the copy made for a
+            # required-only override of a member the base did not keep required (not listed there, or --force-optional)
             mech = "late_required_loses_strict_nullable"
         else:
             mech = "other"
@@ -818,6 +910,11 @@ def evaluate(ck: Check, camps: dict, v: dict, r: dict, model: dict | None, recor
             co.hit(f"opt:{t}")
     co.hit(f"via:{v['via']}")
     co.hit(f"name:{v['name']}")
+    if relist_of(v):
+        co.hit(f"inherited:relisted-{v['relist']}")
+    if is_ref(v):
+        co.hit(f"ref:definition-{v['target']}")
+        co.hit(f"ref:place-{v['place']}")
     if is_union(v):
         co.hit(f"union:{len(v['alts'])}-alternatives")
         co.hit("union:" + ("null-through-alternative" if any(alt_admits_null(a) for a in v["alts"]) else "no-null"))
@@ -1081,6 +1178,12 @@ def campaign_order(ck: Check, n: int) -> None:
 def known_findings(ck: Check) -> None:
     """Re-run the stored witness of every open finding on the real code."""
     for f in ck.findings:
+        if "inherit_group" in f["witness"]:
+            from . import c05_inherit
+
+            if c05_inherit.witness_reproduces(ck, f):
+                ck.known(f["id"], f["what"])
+            continue
         if "vectors" in f["witness"]:
             probe = Check(ck.prop, ck.tier)
             probe.findings = []
@@ -1141,14 +1244,40 @@ def search_union(ck: Check) -> None:
             return
 
 
+def search_refs(ck: Check) -> None:
+    """Targeted search: `$ref`-typed members — every place the definition can stand at, every kind,
+    required and not, with the option block."""
+    from . import c05_refs
+
+    camps = {k: ck.campaign("search ($ref-typed members): " + k) for k in ("ir", "render", "sem", "oracle")}
+    run_batch(ck, camps, c05_refs.core_block())
+    vs = [] if ck.failures else c05_refs.block(None)
+    for i in range(0, len(vs), 3000):
+        run_batch(ck, camps, vs[i : i + 3000])
+        if ck.failures:
+            return
+
+
+def search_inherit(ck: Check) -> None:
+    """Targeted search: inherited members re-listed by a subclass schema (all kinds, both TypedDict syntaxes)."""
+    from . import c05_inherit
+
+    camps = c05_inherit.make_campaigns(ck, {k: ck.campaign("search (inherited members): " + k) for k in ("ir", "render", "sem", "oracle")})
+    c05_inherit.run_batch(ck, camps, c05_inherit.core_block())
+    if not ck.failures:
+        c05_inherit.run_batch(ck, camps, c05_inherit.random_groups(ck, 3000))
+
+
 def run(ck: Check) -> None:
-    from . import c05_groups, c05_union
+    from . import c05_groups, c05_inherit, c05_refs, c05_union
 
     quick = ck.tier == "quick"
     ck.translate("FieldTemplates", field_templates.generate())
     ck.prove()
     ck.assumptions += [
-        "abstract space: one member of scalar / array-of-scalar / dict-of-scalar type, or an anyOf / oneOf of scalar alternatives ({type: T}, {type: [T, null]}, OpenAPI {type: T, nullable: true}, {type: null}; at least one alternative has a type); $ref-typed members, const, default_factory extras and unions over containers or references are outside it",
+        "abstract space: one member of scalar / array-of-scalar / dict-of-scalar type, or an anyOf / oneOf of scalar alternatives ({type: T}, {type: [T, null]}, OpenAPI {type: T, nullable: true}, {type: null}; at least one alternative has a type), or a $ref to an object definition (plain / type: [object, null] / OpenAPI nullable: true; default absent or null); const, default_factory extras, model-typed defaults and unions over containers or references are outside it",
+        "$ref-typed members: which parse order a document layout produces (definition before / after the referring schema, in a file loaded earlier / later, fetched while the reference is resolved) is the harness's reading of the parser; the model's answer provably does not depend on it (ref_member_independent_of_definition_order), so a wrong reading cannot hide a disagreement",
+        "inherited members: single inheritance chains Base <- [Mid <-] Sub built with allOf + $ref; what a re-declared member means in a subclass (pydantic / msgspec / TypedDict read the re-declaration alone; dataclasses pick up the class attribute a literal default left on the base; dataclasses and msgspec keep the position of a re-declared field and refuse a field without default after one with a default) is authored in Model/FieldInherit.lean and validated against the exec'd classes except for msgspec",
         "the default VALUE is abstracted to its class (none given / null / falsy / truthy / string / empty or non-empty list / empty or non-empty dict); equality of the materialised value is checked by the end-to-end oracle on concrete realisations, not by a theorem",
         "Sem (what a rendered member means in pydantic 1, pydantic 2, dataclasses, TypedDict, msgspec) is authored; validated in this run against the exec'd classes except for msgspec, which is not installed (read statically from the AST)",
         "TypedDict requiredness is read from the resolved annotation (NotRequired[...]), not from __required_keys__, because the emitted module uses `from __future__ import annotations` (PEP 655 limitation)",
@@ -1180,14 +1309,22 @@ def run(ck: Check) -> None:
         pairs = [g for g in pairs if prng.chance(1, 4)]
     c05_groups.run_batch(ck, camps, pairs + c05_groups.random_groups(ck, 500 if quick else 3000))
     campaign_order(ck, 200 if quick else 4000)
+    # `$ref`-typed members: a reference to a (nullable) object definition, in every definition order and across files
+    c05_refs.campaign_refrule(ck, 400 if quick else 4000)
+    run_batch(ck, camps, c05_refs.core_block() + (c05_refs.stratified(ck, 150) if quick else c05_refs.block(ck)))
+    # inherited members re-listed as required by a subclass schema
+    icamps = c05_inherit.make_campaigns(ck, camps)
+    c05_inherit.run_batch(ck, icamps, c05_inherit.core_block(quick=quick) + c05_inherit.random_groups(ck, 150 if quick else 2500))
     ck.notes["space"] = {
         "base_block": "kind x dialect/null-source x required x default class x type x constraint x 7 options (own required list, plain name): 105600 valid vectors",
         "renaming_block": f"listed members x where listed (3) x name kind (4) x snake-case-field x {{strict-nullable, use-default, force-optional}}: {len(renaming_vectors()) if not quick else 124800} vectors",
         "union_block": "union-typed members: core (all lists of <= 2 alternatives over {T, [T,null], null} x kind x spelling x required) always; thorough adds kind x lists of alternatives (<= 2 over two types and null, 3 over {T,[T,null],null,U}, OpenAPI lists with a nullable:true alternative) x spelling x required x {no default, null default} x strict-nullable with the other dimensions drawn",
+        "ref_block": "$ref-typed members: kind x dialect x definition (plain / type list with null / OpenAPI nullable keyword) x where the definition stands (root-referrer, before, after, file loaded earlier / later, external file; OpenAPI: before / after) x required; always complete with options off (+ strict-nullable for OpenAPI); quick +300 stratified over all other dimensions; thorough: x default (none / null) x {strict-nullable, use-default, force-optional} x where `required` is written, rest drawn",
+        "inherit_block": "inherited members: kind x where the subclass lists the inherited member (allOf owner / sibling item / item with properties) x second inherited member (plain / non-identifier key, re-listed or not) x own member (none / plain / non-identifier key) x chain (depth 1 both definition orders, depth 2) always complete with options off; plus random chains (1-3 base members of any archetype, 0-2 own members, any subset re-listed, all options)",
         "sibling_block": "every ordered pair of scalar member archetypes (null source x required/optional/default/null default) of one primitive type x dialect x strict-nullable x kind x layout (same class / one per schema); quick: a quarter of it, string only; plus random groups of 2-3 members (scalar, array, dict, union-typed) in all orders",
         "tier_covers": "all blocks exhaustively (spelling options, realisations and the non-enumerated dimensions of the union block drawn per vector)" if not quick else "stratified sample over the product of all dimensions + corpus + union core block + a quarter of the sibling block",
     }
-    ck.search_hooks += [search_siblings, search_union, search_exhaustive]
+    ck.search_hooks += [search_refs, search_inherit, search_siblings, search_union, search_exhaustive]
     known_findings(ck)
 
 
@@ -1200,6 +1337,10 @@ def replay(ck: Check, path: str) -> int:
         bad = "members" in r and (bad_order([h for _, h in r["members"]]) or r["loads"] != "ok")
         print("REPLAY-FAILS: member order / class creation" if bad else "replay: the oracle does not fail on this input")
         return 1 if bad else 0
+    if inp.get("inherit_group"):
+        from . import c05_inherit
+
+        return c05_inherit.replay_group(ck, inp["inherit_group"])
     if inp.get("group"):
         from . import c05_groups
 
@@ -1233,6 +1374,11 @@ def replay(ck: Check, path: str) -> int:
     r = run_vector(v)
     rep = ck.driver.run([driver_request(v)])[0]
     print("vector:", vec_key(v), "member schema:", json.dumps(r.get("member")))
+    if is_ref(v) and isinstance(r.get("document"), dict):
+        for name, doc in r["document"]["files"].items():
+            print(f"input file {name}" + (" (the input)" if r["document"]["entry"] == name else ""), json.dumps(doc))
+        if r["document"]["entry"] is None:
+            print("(the directory of these files is the input)")
     print("emitted:", r.get("line"), "| semantics:", r.get("sem"))
     evaluate(ck, camps, v, r, parse_reply(rep))
     for f in ck.failures:
